@@ -15,7 +15,7 @@ import tempfile
 from harness.lib import hx, cz, clist
 
 ID = 'C04'
-RULE = ('[fields looked at before a selection + attribute assignment; sessions: several tables derived from one source, source/intermediate tables written after the derived ones; selections that keep first+last record and permute / repeat equal-length inner records] files of 1-5 records for BED/BED6/narrowPeak/VCF(VCFBuffer and VCFBuffer2, with and without genotype columns)/SAM '
+RULE = ('[every index spelling: slice, mask as ndarray / list of bools / list of np.bool_, ints as list / list of np ints / ndarray of 9 int dtypes / empty list, single; fields looked at before a selection + attribute assignment; sessions: several tables derived from one source, source/intermediate tables written after the derived ones; selections that keep first+last record and permute / repeat equal-length inner records] files of 1-5 records for BED/BED6/narrowPeak/VCF(VCFBuffer and VCFBuffer2, with and without genotype columns)/SAM '
         '(0-3 optional tags)/GTF/FASTQ(+name lines)/two-line FASTA/BAM with non-canonical spellings (leading zeros, +5, 1e3), '
         'LF and CRLF; programs = trees of selections (slice, step incl. negative, mask, int list with repeats, single index), '
         'concatenations (2-3 operands), replacements of 1-3 fields and intermediate writes; exhaustive index-menu programs of '
